@@ -312,6 +312,55 @@ func RunC01(d *Driver) *Report {
 	// the Pratt parser model against the real parser
 	npratt := c01Pratt(r, d, rng, 2*n)
 	r.Rule += fmt.Sprintf("; Pratt model: %d accepted expression texts with parentheses placed at random (all binary and unary operators, groups, indexing; depth <= 6), the real parser's tree against the tree Model/Pratt.lean returns for the same token kinds", npratt)
+	// whitespace separates the arguments of a call and the elements of an array literal (spec.md,
+	// Whitespace, rules 4 and 5), whatever expression form stands before the space: metamorphic oracle —
+	// `print P N` prints what `print P` and `print N` print, `[P N]` has two elements
+	{
+		pre := "a := [10 20 30]\ns := \"abc\"\nm := {k:5}\ny:any\ny = 7\nn := 2\nb := true\nfunc f:num x:num\n    return x + 1\nend\n"
+		use := "print a s m y n b (f 1)\n"
+		firsts := []string{"a[0]", "a[0:1]", "a[:1]", "a[1:]", "a[n:]", "s[1:]", "s[0]", "s[:n]", "m.k", "m[\"k\"]", "y.(num)", "(f 1)", "[1 2]", "{k:1}", "\"s\"", "3", "n", "a", "(a[1:])", "a[1:][0]", "a[0:2][1:]"}
+		nexts := []string{"-3", "-n", "[0]", "(n)", "\"z\"", "!b", "-a[0]", "[n]"}
+		out := func(src string) (string, bool) {
+			res, _, _ := RunReal(src, RunOpts{})
+			if res.Class != "ok" {
+				return res.Class + " " + res.ParseErr + res.ErrText, false
+			}
+			return strings.TrimRight(res.Out, "\n"), true
+		}
+		nws := 0
+		for _, p1 := range firsts {
+			o1, ok1 := out(pre + "print " + p1 + "\n" + use)
+			for _, nx := range nexts {
+				o2, ok2 := out(pre + "print " + nx + "\n" + use)
+				if !ok1 || !ok2 {
+					r.Disagree(Case{Stream: "wss-separation", Input: p1 + " | " + nx, Real: o1 + " / " + o2, Note: "harness operand should evaluate"})
+					continue
+				}
+				l1, l2 := strings.SplitN(o1, "\n", 2)[0], strings.SplitN(o2, "\n", 2)[0]
+				for _, form := range []string{"print %s %s", "print 0 %s %s 1"} {
+					src := pre + fmt.Sprintf(form, p1, nx) + "\n" + use
+					got, ok := out(src)
+					want := l1 + " " + l2
+					if strings.HasPrefix(form, "print 0") {
+						want = "0 " + want + " 1"
+					}
+					nws++
+					r.Count("wss:"+src, true)
+					if !ok || strings.SplitN(got, "\n", 2)[0] != want {
+						r.Violation(Case{Stream: "wss-separation", Input: src, Real: strings.SplitN(got, "\n", 2)[0], Spec: "whitespace separates arguments: the line prints `" + want + "`"})
+					}
+				}
+				src := pre + "x := [" + p1 + " " + nx + "]\nprint (len x)\n" + use
+				got, ok := out(src)
+				nws++
+				r.Count("wss:"+src, true)
+				if !ok || strings.SplitN(got, "\n", 2)[0] != "2" {
+					r.Violation(Case{Stream: "wss-separation", Input: src, Real: strings.SplitN(got, "\n", 2)[0], Spec: "whitespace separates the elements of an array literal: two elements"})
+				}
+			}
+		}
+		r.Rule += fmt.Sprintf("; whitespace separation: %d programs = 21 expression forms (index, slices, field, type assertion, call, literals, variables) x 8 following operands (unary minus, index-like, group, string, not) in argument and array-element position, metamorphic oracle on the real code", nws)
+	}
 	// evaluation order and short circuit
 	for _, src := range c01OrderPrograms() {
 		c := evalStream(r, d, "order", src, RunOpts{}, parts, true, nil)
@@ -442,6 +491,9 @@ func RunC02(d *Driver) *Report {
 	}
 	for _, src := range TypeMatrixPrograms() {
 		evalStream(r, d, "typematrix", src, RunOpts{}, parts, true, oracle)
+	}
+	for _, src := range AnyEqualityPrograms() {
+		evalStream(r, d, "any-equality", src, RunOpts{}, parts, true, oracle)
 	}
 	// accepted programs of the typed fragment satisfy the hypotheses of the type soundness theorem
 	{
@@ -610,6 +662,22 @@ func sweepTuples(rng *rand.Rand, name string, ptypes []string, hasRet bool, thor
 // TypeMatrixPrograms: every binary operator applied to every pair of value descriptions (variables of
 // each type, constant and empty literals, nested empties); most are rejected by the parser, the
 // accepted ones must run without going wrong.
+// AnyEqualityPrograms: == and != between values of every kind held in an any, in an []any and in an {}any
+// (the dynamic types differ although the static types are the same).
+func AnyEqualityPrograms() []string {
+	vals := []string{"1", "\"x\"", "true", "[1]", "[\"x\"]", "[true]", "[[1]]", "[[\"x\"]]", "[1 \"x\"]", "{k:1}", "{k:\"x\"}", "{k:true}", "{k:[1]}", "{k:[\"x\"]}", "[]", "{}", "[{k:1}]", "[{k:\"x\"}]"}
+	var out []string
+	for _, l := range vals {
+		for _, r := range vals {
+			out = append(out,
+				"a:any\nb:any\na = "+l+"\nb = "+r+"\nprint (a == b) (a != b) (b == a)\n",
+				"a:[]any\nb:[]any\na = ["+l+" 0]\nb = ["+r+" 0]\nprint (a == b) (a != b)\nm:{}any\nn:{}any\nm.k = "+l+"\nn.k = "+r+"\nprint (m == n) (m != n)\n",
+				"func same:bool x:any y:any\n    return x == y\nend\nprint (same "+l+" "+r+") (same ["+l+"] ["+r+"])\n")
+		}
+	}
+	return out
+}
+
 func TypeMatrixPrograms() []string {
 	descs := []string{"n", "s", "b", "an", "as", "aa", "mn", "ma", "y", "[]", "{}", "[1]", "[\"a\"]", "{a:1}", "[[]]", "[{}]", "{a:[]}", "{a:{}}", "[[1]]", "[1 \"a\"]", "1", "\"a\"", "true"}
 	ops := []string{"+", "-", "*", "/", "%", "<", "<=", "==", "!=", "and", "or"}
